@@ -210,7 +210,7 @@ def q_script_parse(env, name=None):
             raw = concrete_bytes(s.model(), units)
             req, nat = native(raw)
             msg = f"script [{label}]: {bad}"
-            item = {"message": msg, "request": req, "op_index": 0, "expected": ("error" if expect[0] == "err" else {"roundtrip": raw.hex()}), "native": nat}
+            item = {"message": msg, "request": req, "op_index": 0, "expected": ("error" if expect[0] == "err" else raw.hex()), "native": nat}
             if expect[0] == "err":
                 rep = any("ok" in v for v in nat.values())
             else:
